@@ -108,6 +108,9 @@ func (w *World) CheckC07(ctx sdk.Context, l *Ledger, fail func(a, s, d string), 
 			fail("c07.no-stray-ticks", "", fmt.Sprintf("tick %d stored (gross %s net %s) but no position uses it", t.TickIndex, t.Info.LiquidityGross, t.Info.LiquidityNet))
 			continue
 		}
+		if g.IsPositive() && net[t.TickIndex].IsZero() {
+			vac["states_with_a_tick_in_use_whose_net_liquidity_is_zero"]++
+		}
 		if !t.Info.LiquidityGross.Equal(g) || !t.Info.LiquidityNet.Equal(net[t.TickIndex]) {
 			fail("c07.tick-liquidity", "", fmt.Sprintf("tick %d stored gross %s net %s, positions give gross %s net %s", t.TickIndex, t.Info.LiquidityGross, t.Info.LiquidityNet, g, net[t.TickIndex]))
 		}
